@@ -26,13 +26,15 @@ LAYOUTS = ((1, "AA+BB"), (2, "AABB"), (4, "AABBCRCI"), (4, "STOKE"))
 
 def REQUIRED(tier):
     return ["files_generated", "files_in_domain", "whole_file_checks", "position_requests", "regime:unaligned_start", "regime:crosses_subint", "plan_checks", "reduction_checks",
-            "header_type_checks", "band:ascending", "band:descending", "layout:AABBCRCI", "layout:STOKE", "mutation_checks", "regime:partial_last_subint", "regime:chan_bw_card_disagrees_with_dat_freq", "regime:path_previously_held_another_file", "regime:unit_scales_nonzero_offsets", "plan:allocator_option", "subband_requests"]
+            "header_type_checks", "band:ascending", "band:descending", "layout:AABBCRCI", "layout:STOKE", "mutation_checks", "regime:partial_last_subint", "regime:chan_bw_card_disagrees_with_dat_freq", "regime:path_previously_held_another_file", "regime:unit_scales_nonzero_offsets", "plan:allocator_option", "subband_requests", "regime:rows_longer_than_256_samples", "regime:zero_off_card_is_an_integer"]
 
 
 def cases(tier, seed):
     n = 16 if tier == "quick" else 300
     for i in range(n):
         yield {"fseed": int(seed) * 100003 + i, "force": i % 8}
+    for i, (f, rows) in enumerate(((2, 300), (3, 600), (7, 1000)) if tier == "quick" else ((2, 300), (3, 600), (7, 1000), (6, 257), (1, 4000))):
+        yield {"fseed": int(seed) * 100003 + 5000 + i, "force": f, "big_rows": rows}     # long rows (NSBLK of hundreds to thousands, not a power of two)
 
 
 def _gen(case, ctx, path=None):
@@ -44,6 +46,9 @@ def _gen(case, ctx, path=None):
     nsub = int(rng.integers(3, 6))
     nsblk = int(rng.choice([8, 16, 50]))
     nchan = int(rng.choice([4, 8, 16]))
+    if case.get("big_rows"):
+        nsub, nsblk, nchan = 2 + case["fseed"] % 2, int(case["big_rows"]), 4
+        ctx.count("regime:rows_longer_than_256_samples")
     f0 = float(rng.uniform(700, 3000))
     bw = float(rng.choice([0.5, 1.0, 8.0, 0.1, 0.547]))
     freqs = f0 + bw * np.arange(nchan) * (1 if ascending else -1)
@@ -52,6 +57,9 @@ def _gen(case, ctx, path=None):
     offs = rng.uniform(-3, 3, size=(nsub, npol, nchan))
     wts = rng.choice([1.0, 1.0, 0.5, 0.0], size=(nsub, nchan))
     zero_off = float(rng.choice([0.0, 7.5, 0.5]))
+    if case["fseed"] % 4 == 1:
+        zero_off = 8 if nbits == 4 else 128      # the card written as an integer literal (legal FITS): ZERO_OFF = 8
+        ctx.count("regime:zero_off_card_is_an_integer")
     tbin = float(rng.choice([6.4e-5, 5.12e-4]))
     if case["fseed"] % 5 == 3:
         # rows calibrated with unit scales and non-zero offsets (a writer that stores unscaled bytes plus a per-channel baseline)
@@ -157,7 +165,7 @@ def run_case(case, ctx):
         return
     # ---- every (start, nsamps)
     nsblk = info["nsblk"]
-    step = 1 if N <= 80 else 7
+    step = 1 if N <= 80 else 7 if N <= 300 else 97
     for start in range(0, N, step):
         for ns in list(range(1, N - start + 1, step)) + [N - start]:
             ctx.evaluated(); ctx.count("position_requests")
@@ -225,7 +233,7 @@ def run_case(case, ctx):
                 return
     # ---- read_plan exactly once
     Wflat = np.asarray(whole.data).T
-    for gulp in list(range(1, min(N, 40) + 2)) + [N, N + 3]:
+    for gulp in (list(range(1, min(N, 40) + 2)) + [N, N + 3]) if N <= 400 else [97, 256, 257, nsblk - 1, nsblk + 1, N // 3, N, N + 3]:
         for skipback in sorted({0, 1, gulp // 2}):
             if skipback >= min(gulp, N):
                 continue
